@@ -42,8 +42,8 @@ def run(prop, tier, seed, work, ev):
         c = work.path("rcalls.cases")
         subprocess.check_call([drv, "gen", "calls", str(seed), str(t["rand"]), c])
         rejects += eng_eval.run_and_judge("random calls (large arrays, ties, all planes of Unicode)", c, work, ev, drv, nsamples=3)
-        rejects += eng_eval.pool_families(["nest", "compose", "hash", "mapnull", "nested", "selfnest", "byorder"], work, ev, drv)
-        rejects += eng_eval.pools_matching(r"[a-z_]+\(", "a function call", work, ev, drv, skip=("nest", "compose", "hash", "mapnull", "nested", "selfnest", "byorder"))
+        rejects += eng_eval.pool_families(["nest", "compose", "hash", "mapnull", "nested", "selfnest", "byorder", "bykeys", "bignums"], work, ev, drv)
+        rejects += eng_eval.pools_matching(r"[a-z_]+\(", "a function call", work, ev, drv, skip=("nest", "compose", "hash", "mapnull", "nested", "selfnest", "byorder", "bykeys", "bignums"))
     else:
         tlc_ok("mc/MC_Call.tla", "MC_Call_sig.cfg" if tier == "quick" else "MC_Call_sig_thorough.cfg", work, ev=ev,
                label="signature table: arity first, types, result types, L1 table = L0 table " + tier, timeout=3000)
@@ -61,8 +61,27 @@ def run(prop, tier, seed, work, ev):
             c = work.path("sig.doc.cases")
             gen_call(work, "sig", c, 2, t["len"], via="doc")
             rejects += eng_eval.run_and_judge("decision table up to 2 arguments, via the document", c, work, ev, drv, nsamples=1)
-        rejects += eng_eval.pool_families(["errpair", "compose", "selfnest", "keyorder", "mapnull", "byorder"], work, ev, drv)
-        rejects += eng_eval.pools_matching(r"[a-z_]+\(", "a function call", work, ev, drv, skip=("errpair", "compose", "selfnest", "keyorder", "mapnull", "byorder"))
+        rejects += eng_eval.pool_families(["errpair", "compose", "selfnest", "keyorder", "mapnull", "byorder", "bignums", "bykeys"], work, ev, drv)
+        rejects += eng_eval.pools_matching(r"[a-z_]+\(", "a function call", work, ev, drv, skip=("errpair", "compose", "selfnest", "keyorder", "mapnull", "byorder", "bignums", "bykeys"))
+    # values outside the number model (sums that leave the doubles, integers of 16 and more digits next to fractions): the result-type clause
+    # alone -- a failure or a value of a declared result type, and no type error on arguments that are all numbers
+    c = work.path("restype.cases")
+    with open(c, "w") as f:
+        over = ["[1e308, 1e308]", "[-1.5e308, -3e307, -1e308]", "[1.7976931348623157e308, 1e292]", "[1.7976931348623157e308, 1.7976931348623157e308]", "[9e307, 9e307, 9e307]",
+                "[1e308, -1e308, 1e308]", "[1.7976931348623157e308]", "[5e-324, 5e-324]", "[123456789012345678901234567890, 1e22]"]
+        for doc in over:
+            for fn, text in (("sum", "sum(@)"), ("avg", "avg(@)"), ("abs", "abs(sum(@))"), ("ceil", "ceil(avg(@))"), ("floor", "floor(sum(@))"), ("max", "max(@)"), ("min", "min(@)"),
+                             ("sort", "sort(@)"), ("to_string", "to_string(sum(@))"), ("type", "type(sum(@))"), ("not_null", "not_null(sum(@))"), ("to_number", "to_number(sum(@))")):
+                f.write(json.dumps({"e": "restype", "fn": common.cps(fn), "mustwork": False, "text": common.cps(text), "doctext": common.cps(doc)}) + "\n")
+        mixed = ['[{"id": 9007199254740993}, {"id": 2.5}]', '[{"id": 1152921504606846976}, {"id": 7}, {"id": 0.5}]', '[{"id": -9007199254740994}, {"id": 3}, {"id": 4.0}]',
+                 '[{"id": 9007199254740993}, {"id": 18446744073709551615}]', '[{"id": 36028797018963968}, {"id": -1.5}]', '[{"id": 0.5}, {"id": 1152921504606846976}, {"id": 7}]',
+                 '[{"id": 18446744073709551615}, {"id": 1e300}, {"id": -9223372036854775808}]', '[{"id": 1e308}, {"id": 9223372036854775807}]']
+        for doc in mixed:
+            for fn, text in (("sort_by", "sort_by(@, &id)"), ("max_by", "max_by(@, &id)"), ("min_by", "min_by(@, &id)"), ("sort", "sort(@[*].id)"), ("max", "max(@[*].id)"), ("min", "min(@[*].id)"),
+                             ("sort_by", "sort_by(@, &abs(id))"), ("map", "map(&abs(id), @)"), ("sum", "sum(@[*].id)"), ("avg", "avg(@[*].id)"), ("contains", "contains(@[*].id, @[0].id)")):
+                f.write(json.dumps({"e": "restype", "fn": common.cps(fn), "mustwork": fn not in ("sum", "avg"), "text": common.cps(text), "doctext": common.cps(doc)}) + "\n")
+    rejects += eng_eval.run_and_judge("result types on values outside the number model (overflowing sums, integers of 16+ digits next to fractions): a failure or a declared type, no type error on numbers",
+                                      c, work, ev, drv, nsamples=1, tv="tv/TV_ResType.tla")
     c, n = common.witness_cases(prop, work)
     if n:
         rejects += eng_eval.run_and_judge("witnesses of recorded findings", c, work, ev, drv, nsamples=1)
